@@ -25,9 +25,11 @@ vars == <<vals, encs, wire, rpos, backs, again>>
 Init == vals = <<>> /\ encs = <<>> /\ wire = <<>> /\ rpos = 0 /\ backs = <<>> /\ again = <<>>
 
 \* WriteValue(out, v)
+\* (P = TRUE where P quantifies over the items of a value: directly in an action TLC unrolls a
+\* bounded quantifier by recursion -- 40000 list items deep --, as an operand of = it is a loop)
 Write(v) ==
   /\ rpos = 0
-  /\ IsValue(v)
+  /\ IsValue(v) = TRUE
   /\ \E e \in {EncValue(v)} :                \* bound once, by value
        /\ wire' = wire \o e
        /\ encs' = Append(encs, e)
@@ -55,7 +57,7 @@ ReEncode ==
 
 \* Write(v); Open; Read; ReEncode on a fresh stream
 RT(v) ==
-  /\ IsValue(v)
+  /\ IsValue(v) = TRUE
   /\ \E e \in {EncValue(v)} : \E d \in {DecValue(e, 1)} :
        /\ d.ok
        /\ vals' = <<v>> /\ encs' = <<e>> /\ wire' = e
